@@ -102,11 +102,12 @@ Theorem with_shape_sound {X} (f : list nat -> option X) x R :
   with_shape f x = Some R -> exists s, parse_shape x = Ok (map Z.of_nat s) /\ f s = Some R.
 Proof.
   unfold with_shape, shape_of. destruct (parse_shape x) as [l|]; [|discriminate].
-  destruct (nats_of l) as [s|] eqn:E; [|discriminate]. intros H. exists s. split; [|exact H].
+  destruct l as [|z l]; [discriminate|].
+  destruct (nats_of (z :: l)) as [s|] eqn:E; [|discriminate]. intros H. exists s. split; [|exact H].
   now rewrite (nats_of_some _ _ E).
 Qed.
 
-Theorem with_shape_forms {X} (f : list nat -> option X) (s : list nat) :
+Theorem with_shape_forms {X} (f : list nat -> option X) (s : list nat) : s <> [] ->
   with_shape f (STuple (ints (map Z.of_nat s))) = f s /\ with_shape f (SList (ints (map Z.of_nat s))) = f s /\
   (forall shp, filter (fun d => negb (d =? 1)%Z) shp = [zlen (map Z.of_nat s)] ->
      with_shape f (SArr (mknd shp DInt (map NFin (map Z.of_nat s)))) = f s) /\
@@ -114,14 +115,18 @@ Theorem with_shape_forms {X} (f : list nat -> option X) (s : list nat) :
   (forall shp d, with_shape f (SArr (mknd shp DFloat d)) = None) /\
   (forall z l, In z l -> (z < 0)%Z -> with_shape f (STuple (ints l)) = None /\ with_shape f (SList (ints l)) = None).
 Proof.
+  intros Hne.
   destruct (parse_shape_ints (map Z.of_nat s)) as [HT HL]. destruct parse_shape_rejects as (HF & _).
   unfold with_shape, shape_of.
-  split; [now rewrite HT, nats_of_ofnat|]. split; [now rewrite HL, nats_of_ofnat|].
-  split; [intros shp Hs; rewrite (parse_shape_array shp (map Z.of_nat s) _ Hs); now rewrite nats_of_ofnat|].
+  assert (K : forall l : list Z, l <> [] -> match l with [] => None | _ => nats_of l end = nats_of l) by (intros [|? ?]; congruence).
+  assert (Hm : map Z.of_nat s <> []) by (destruct s; [congruence|discriminate]).
+  split; [now rewrite HT, (K _ Hm), nats_of_ofnat|]. split; [now rewrite HL, (K _ Hm), nats_of_ofnat|].
+  split; [intros shp Hs; rewrite (parse_shape_array shp (map Z.of_nat s) _ Hs); now rewrite (K _ Hm), nats_of_ofnat|].
   split; [intros n; rewrite parse_shape_int; change [Z.of_nat n] with (map Z.of_nat [n]); now rewrite nats_of_ofnat|].
   split; [intros shp d; now rewrite HF|].
   intros z l Hin Hz. destruct (parse_shape_ints l) as [HT' HL'].
-  split; [now rewrite HT', (nats_of_negative l z)|now rewrite HL', (nats_of_negative l z)].
+  assert (Hl : l <> []) by (destruct l; [destruct Hin|discriminate]).
+  split; [now rewrite HT', (K _ Hl), (nats_of_negative l z)|now rewrite HL', (K _ Hl), (nats_of_negative l z)].
 Qed.
 
 (* ---------------- dense permute as a request *)
@@ -164,13 +169,16 @@ Proof.
   exists R. unfold permute_d_req. rewrite (with_order_complete _ x p Hx). auto.
 Qed.
 
-Theorem reshape_d_req_correct (T : dense V) x s' : wf_dense T -> size s' = size (dshape T) ->
+Theorem reshape_d_req_correct (T : dense V) x s' : wf_dense T -> size s' = size (dshape T) -> s' <> [] ->
   parse_shape x = Ok (map Z.of_nat s') ->
   exists R, reshape_d_req v0 T x = Some R /\ dshape R = s' /\ ddata R = ddata T /\
     (forall i, inb s' i = true -> den_dense v0 R i = den_dense v0 T (ind2sub (dshape T) (sub2ind s' i))).
 Proof.
-  intros W Hs Hx. destruct (reshape_dense_correct v0 T s' W Hs) as (R & E & _ & H1 & H2 & H3 & _).
-  exists R. unfold reshape_d_req, with_shape, shape_of. rewrite Hx, nats_of_ofnat. auto.
+  intros W Hs Hne Hx. destruct (reshape_dense_correct v0 T s' W Hs) as (R & E & _ & H1 & H2 & H3 & _).
+  exists R. unfold reshape_d_req, with_shape, shape_of. rewrite Hx.
+  replace (match map Z.of_nat s' with [] => None | _ => nats_of (map Z.of_nat s') end) with (nats_of (map Z.of_nat s'))
+    by (destruct s'; [congruence|reflexivity]).
+  rewrite nats_of_ofnat. auto.
 Qed.
 
 End Dense.
